@@ -63,7 +63,7 @@ LEVEL_NOTE = ("The per-solver premises are now FULL theorems of the solver model
               "C02_same_net_svd_witness); the decision layer's worlds are derived from the solver models (Props/C02Agree.lean, "
               "C02AgreeEnv.lean) and, round 7, from the EXECUTED models: project_equations() = PE.peWorld (drv_pe), solver object read "
               "off netSolve (obsNet) - C02_decision_agree_single_point_of_project_equations, C02_decision_agree_of_first_of_project_equations "
-              "for any two of env/chol/gso (svd excluded: F7-svd), premises WorldHyp (on every configuration of the removal loop: NoAlias, "
+              "for any two of env/chol/gso (svd excluded: F7-svd), premises WorldHyp (on every configuration of the removal loop: "
               "m0 != 0, covariance invertible, the algorithm's first- and second-stage unambiguity) and 'same first removal' (what F7 violates). "
               "Hypotheses that stay: rank numerically unambiguous (as an exact gap of A'PA on the input: Props/C01/Gap.lean, Gap2.lean, "
               "SvdGap.lean, InputGap.lean), WorldHyp for the removal loop (not yet one input-side hypothesis; not witnessed over R), "
